@@ -240,8 +240,13 @@ Dom_Kinds(kinds) == /\ kinds[1] \in CoordKinds /\ kinds[2] \in CoordKinds /\ kin
                     /\ kinds[4] \in SelKinds /\ kinds[5] \in CoordKinds
 \* den = denominator of the ticks (1: integer values); rhos = the squared radii held by the radii array
 Dom_KindValues(kinds, den, rhos) ==
-  /\ (\E i \in {1, 2, 3, 5} : kinds[i] \in IntKinds) => den = 1
+  /\ (\E i \in {1, 2, 3} : kinds[i] \in IntKinds) => den = 1
   /\ kinds[3] \in IntKinds => \A j \in DOMAIN rhos : rhos[j][2] = 1
+\* an integer-typed box holds whole numbers: every tick of every box handed over is a multiple of den
+\* (the coordinates may then still lie on the half or quarter lattice); boxes = sequence of <<>> / <<matrix>>
+Dom_BoxKind(kinds, den, boxes) ==
+  kinds[5] \in IntKinds =>
+    \A b \in DOMAIN boxes : boxes[b] # <<>> => \A r \in 1..3, c \in 1..3 : boxes[b][1][r][c] % den = 0
 MayRefuseConstruct(kinds) == kinds[1] \in RefusableKinds \/ kinds[4] \in RefusableKinds \/ kinds[5] \in RefusableKinds
 
 (* ------------------------------------------------------------------ sessions *)
